@@ -38,6 +38,10 @@ ARGS=(-modfile="$GEN/go.mod" -vet=off -count=1 -p 4 -json)
 if [ -n "$SKIP" ]; then
     ARGS+=(-skip "$SKIP")
 fi
+# CONFORMANCE_BENCH=1 additionally runs the packages' DB-backed benchmarks once (adds ~20 s)
+if [ "${CONFORMANCE_BENCH:-0}" = "1" ]; then
+    ARGS+=(-bench . -benchtime 1x)
+fi
 # shellcheck disable=SC2086
 ROLLING_SHUTTER_TESTDB_URL=minipg://conformance go test "${ARGS[@]}" "$@" $PKGS > "$OUT" 2> "$GEN/test.stderr"
 STATUS=$?
